@@ -326,6 +326,9 @@ namespace vf
                   if (!shrinking_seen_failure) { st.known_hits++; for (const auto &part : split_sig(r.signature)) st.known_by_sig[part]++; }
                   return; // listed finding: counted, search continues behind it
                 }
+              // while shrinking, only a failure with the signature of the original one counts: otherwise the shrinker slides into
+              // whatever else fails for the degenerate inputs it produces and the report no longer describes what the search found
+              if (shrinking_seen_failure && r.signature != st.failure_sig) return;
               if (!shrinking_seen_failure) shrink_t0 = std::chrono::steady_clock::now();
               shrinking_seen_failure = true;
               J f = J::obj();
